@@ -6,7 +6,7 @@ PRELOAD = ("prov.model", "prov.serializers.provjson", "prov.serializers.provxml"
 VALUE_SPELLINGS = ["bare string", "{$,type=xsd:string}", "[bare string]", "bare int", "{$:int,type=xsd:int}", "{$:'lexical',type=xsd:int}",
                    "{$:int,type=xsd:long}", "bare true/false", "{$:'true',type=xsd:boolean}", "{$:bool,type=xsd:boolean}", "{$,lang}",
                    "{$,type=prov:QUALIFIED_NAME}", "{$,type=xsd:anyURI}", "{$:'1.5',type=xsd:double}", "{$:1.5,type=xsd:double}",
-                   "{$,type=xsd:dateTime}", "{$,type=ex:custom}", "[two values: bare string, typed int]", "[one typed value]", "{$,type=xsd:QName}"]
+                   "{$,type=xsd:dateTime}", "{$,type=ex:custom}", "[two values: bare string, typed int]", "[one typed value]", "{$,type=xsd:QName}", "hostile catalogue string"]
 
 
 def _M(ctx, pairs):
@@ -59,6 +59,11 @@ def _value(ctx, i):
         return [ctx.str("s", 2, 0, "any"), M([("$", ctx.bigint("n")), ("type", "xsd:int")])]
     if name == "[one typed value]":
         return [M([("$", ctx.str("s", 2, 0, "any")), ("type", "xsd:string")])]
+    if name == "hostile catalogue string":
+        from harness.docspace import HOSTILE
+
+        h = HOSTILE[ctx.choose("h", len(HOSTILE))]
+        return (h, M([("$", h), ("type", "xsd:string")]), M([("$", h), ("lang", "en")]), M([("$", h), ("type", "ex:custom")]))[ctx.choose("hform", 4)]
     return M([("$", "ex:abc"), ("type", "xsd:QName")])
 
 
@@ -148,10 +153,14 @@ def foreign_json(ctx):
         mode = ctx.choose("bmode", 4)
         bp = [[("p2", "http://p2/")], [("ex", "http://other/")], [("default", "http://bd/")], []][mode]
         name = ("p2:b1", "ex:b1", "b1", "ex:b1")[mode]
+        # the bundle's own name: resolvable, or not (undeclared prefix / no default namespace in scope / empty)
+        bkey = ("bid:bundle1", "nope:bundle1", "bundle1", "bid:")[ctx.choose("bkey", 4)]
+        # the submission does not say in which scope a bundle's own unprefixed name resolves when the bundle redeclares the default namespace
+        ctx.assume(not (bkey == "bundle1" and mode == 2))
         inner = [("prefix", M(bp))] if bp else []
         inner.append(("entity", M([(name, M([("ex:k", _value(ctx, ctx.choose("sp", 3)))]))])))
         top.append(("entity", M([("ex:top", M([]))])))
-        top.append(("bundle", M([("bid:bundle1", M(inner))])))  # the bundle's own identifier uses a prefix it does not redeclare
+        top.append(("bundle", M([(bkey, M(inner))])))  # the bundle's own identifier uses a prefix it does not redeclare
     else:
         # formal attribute with two values: must be refused with a library error
         top.append(("entity", M([("ex:e1", M([]))])))
@@ -184,8 +193,13 @@ def foreign_json(ctx):
     if want is not None:
         ctx.check(S.doc_eq(want, have), "loading dropped, invented or changed records / values relative to the text's own denotation")
     d2 = ProvDocument()
-    decode_json_document(encode_json_document(d), d2)
+    try:
+        decode_json_document(encode_json_document(d), d2)
+    except Exception as e:
+        ctx.fail("writing + loading the loaded document raised %s" % type(e).__name__)
     ctx.check(S.doc_eq(have, S.doc_desc(d2)), "write + load of the loaded document does not give the same document again")
+    for b in d.bundles:
+        ctx.check(b.identifier is not None, "loading produced a bundle without identifier")
     if not ctx.sym:
         # text level and across formats
         text = d.serialize(format="json")
@@ -232,7 +246,9 @@ def foreign_xml(ctx):
     elif case == 3:
         v = ('<ex:k>plain</ex:k>', '<ex:k xsi:type="xsd:int">5</ex:k>', '<ex:k xsi:type="xsd:string"></ex:k>', '<ex:k xml:lang="en">hi</ex:k>',
              '<ex:k xsi:type="xsd:QName">ex:q</ex:k>', '<ex:k xsi:type="xsd:anyURI">http://x/</ex:k>', '<ex:k xsi:type="xsd:boolean">true</ex:k>',
-             '<ex:k xsi:type="xsd:double">1.5</ex:k>', '<ex:k xsi:type="xsd:dateTime">2020-01-02T03:04:05</ex:k>', '<ex:k/>')[ctx.choose("v", 10)]
+             '<ex:k xsi:type="xsd:double">1.5</ex:k>', '<ex:k xsi:type="xsd:dateTime">2020-01-02T03:04:05</ex:k>', '<ex:k/>',
+             '<ex:k xsi:type="xsd:string">  padded\n </ex:k>', '<prov:value xsi:type="xsd:string"> x </prov:value>', '<ex:k xsi:type="ex:custom"> c </ex:k>',
+             '<ex:k xml:lang="en"> hi </ex:k>', '<ex:k>  plain padded </ex:k>', '<ex:k xsi:type="xsd:int"> 5 </ex:k>')[ctx.choose("v", 16)]
         body = '<prov:entity prov:id="ex:x">%s</prov:entity>' % v
     elif case == 4:
         ns += ' xmlns="http://d/"'
@@ -272,7 +288,7 @@ def _json_shards(tier):
     out = []
     for sp in range(len(VALUE_SPELLINGS)):
         for a in range(4):
-            out.append({"shape": "value", "attr": a, "spelling": sp, "xml_ok": sp != 19 and not (a == 2 and sp not in (0, 1, 2, 10, 18))})
+            out.append({"shape": "value", "attr": a, "spelling": sp, "xml_ok": sp != 19 and not (a == 2 and sp not in (0, 1, 2, 10, 18, 20))})
         out.append({"shape": "value", "attr": 4, "spelling": sp, "default": True, "xml_ok": sp != 19})
     for sh in ("formal_wrapped", "membership", "membership_pair", "record_array", "bundle_prefix", "two_formal_values"):
         out.append({"shape": sh})
@@ -287,7 +303,8 @@ OBLIGATIONS = [
                     "contents; the real decoder must raise a library error or yield d whose strict content equals the tree's denotation by an independent reader, and decode(encode(d)) == d; "
                     "witnesses additionally go through JSON text and JSON -> XML",
                bounds="one record (+ referenced elements) per tree; strings |s|<=2 any code points, unbounded ints, float/time lexicals from catalogues",
-               assumptions=["trees are well-formed PROV-JSON per the member submission; the independent reader defines their denotation", "stub: str(record) for logger.debug returns a constant"],
+               assumptions=["trees are well-formed PROV-JSON per the member submission; the independent reader defines their denotation",
+                            "an unprefixed bundle name together with a bundle-level default namespace is excluded (scope of the bundle's own name is not defined by the submission)", "stub: str(record) for logger.debug returns a constant"],
                functions=["prov.serializers.provjson.decode_json_document/decode_json_container/decode_json_representation", "prov.model.ProvRecord.add_attributes/_auto_literal_conversion"],
                budget_s=(200, 600), per_path_s=(30, 60)),
     Obligation(name="foreign_xml", fn=foreign_xml, shards=[{"case": c} for c in range(len(XML_CASES))],
